@@ -44,9 +44,14 @@ def rvalue(rng, tag=None, allow_cr=False, long_ok=True):
     if tag is not None and rng.random() < 0.5:
         parts.insert(rng.randrange(len(parts) + 1), tag)
     s = "".join(parts)
-    if long_ok and rng.random() < 0.02:
-        # push the serialized text across a 4096-character read boundary with an escape around it
-        s = s + ("y" * rng.choice([4090, 4095, 4096, 8190])) + rng.choice(["\\", ":", "//", ";", "\n"]) + "z"
+    if long_ok and rng.random() < 0.03:
+        # a long value with a metacharacter token placed on / next to a power-of-two index of the component
+        # (buffer boundaries of chunked readers and writers: 4096, 8192, 16384)
+        boundary = rng.choice([4096, 8192, 8192, 16384])
+        token = rng.choice(["\\", ":", "//", "//", ";", "\n", "\\\\"])
+        start = boundary - 1 + rng.choice([-2, -1, -1, 0, 0, 1])
+        if len(s) < start:
+            s = s + "y" * (start - len(s)) + token + "z"
     return s
 
 
